@@ -189,13 +189,15 @@ open MythVerif.Wsq (Elem Pid Holder)
    re-centring: a push at `top == size` stops), `pop` – fast path, locked slow path, reset path – and
    `put` (base-side insertion under the lock, without re-centring: a put at `base == 0` stops, still
    holding the lock; it linearizes when its `base` store drains) against `myth_queue_take` of any
-   number of thieves.  Not covered: trypass, peek, the wsapi variants, the steal cache,
-   re-centring, clear.  Modelling simplification (DESIGN A.3): the releasing store of unlock is
+   number of thieves and `myth_queue_trypass` (trylock; fails at `base == 0`; slot store, `base--`,
+   unlock; it linearizes when its `base` store drains, possibly while the owner is inside a
+   lock-free push or pop) of any number of passers.  Not covered: peek, the wsapi variants, the
+   steal cache, re-centring, clear.  Modelling simplification (DESIGN A.3): the releasing store of unlock is
    performed on memory right after its fence. -/
 
-/-- **No loss, no duplication under x86-TSO store buffering (partial: push / pop / put / take).**
+/-- **No loss, no duplication under x86-TSO store buffering (partial: push / pop / put / take / trypass).**
 In every reachable state of the store-buffer machine with the fences of the source, for every
-capacity and any number of thieves: the TSO invariant holds (buffer shapes, memory-side window
+capacity and any number of thieves and passers: the TSO invariant holds (buffer shapes, memory-side window
 `[lb, mem.top)` = prefix of `A`, `mem.base = lb (+1 while a thief's increment is visible)`), every
 value returned equals the element removed at the linearization point, nothing is returned twice,
 and inserted = deque + in flight + returned as multisets; the three fall-back branches of the
@@ -270,5 +272,56 @@ open Lbl in
 /-- a put at `base == 0` stops (re-centring is outside the model), holding the lock -/
 example : (runs step (init FenceCfg.code 1) [oPut 1, o, o]).map (fun s => (s.opc, s.lock)) =
     some (.stuckL, .owner) := by decide
+
+
+/-! trypass races the owner's lock-free pop: elements 1, 2, 3 pushed and drained (capacity 8);
+    passer 0 runs `trypass 9` up to its unlock with both stores buffered while the owner pops 3 on
+    the fast path reading the stale `base`; the stores drain (the second drain inserts 9), thief 1
+    then takes 9 -/
+open Lbl in
+def exPassPre : List Lbl :=
+  [oPush 1, o, o, o, o, flushO, flushO, oPush 2, o, o, o, o, flushO, flushO, oPush 3, o, o, o, o, flushO, flushO,
+   tPass 0 9, t 0, t 0, t 0, t 0, t 0,
+   oPop, o, o, flushO, o, o]
+
+open Lbl in
+def exPass : List Lbl :=
+  exPassPre ++
+  [o, flushT 0, flushT 0, t 0,
+   tTake 1, t 1, t 1, t 1, t 1, flushT 1, t 1, t 1, t 1, t 1]
+
+example : (runs step (init FenceCfg.code 8) exPassPre).map
+    (fun s => (s.opc, s.tpc 0, s.bufT 0, s.base, s.A)) =
+    some (.po3 6 3, .tp4 true, [.ptr 3 (some 9), .baseI 3 9], 4, [1, 2]) := by decide
+example : (runs step (init FenceCfg.code 8) exPass).map
+    (fun s => (s.retd, s.A, s.top, s.base, s.lock)) = some ([9, 3], [1, 2], 6, 4, .free) := by decide
+example : (runs step (init FenceCfg.code 8) exPass).map (fun s => (s.ins, decide s.ins.Nodup)) =
+    some ([9, 3, 2, 1], true) := by decide
+
+open Lbl in
+/-- trypass into the very slot an owner's slow-path pop is aimed at: the owner pushed 1 and started a
+    pop, thief 1 took 1, the owner (its `top = 4` drained, deque empty, `base = 5 > top`) waits for
+    the lock that passer 0 holds; the pass stores slot 4 and `base = 4`; after its unlock the owner
+    finds `base <= top` and pops 9 -/
+def exPassSlow : List Lbl :=
+  [oPush 1, o, o, o, o, flushO, flushO,
+   oPop, o,
+   tTake 1, t 1, t 1, t 1, t 1, flushT 1, t 1, t 1, t 1, t 1,
+   o, flushO, o, o,
+   tPass 0 9, t 0, t 0, t 0, t 0, t 0,
+   o, flushT 0, flushT 0, t 0,
+   o, o, o, o, flushO, o]
+
+example : (runs step (init FenceCfg.code 8) exPassSlow).map
+    (fun s => (s.retd, s.A, s.top, s.base, s.opc)) = some ([9, 1], [], 4, 4, .idle) := by decide
+
+open Lbl in
+/-- a failed trylock (the owner holds the lock inside put) returns without inserting; at
+    `base == 0` trypass returns 0 under the lock -/
+example : (runs step (init FenceCfg.code 8) [oPut 2, o, tPass 0 9, t 0]).map
+    (fun s => (s.tpc 0, s.lock, s.A, s.ins)) = some (.idle, .owner, [], []) := by decide
+open Lbl in
+example : (runs step (init FenceCfg.code 1) [tPass 0 9, t 0, t 0]).map
+    (fun s => (s.tpc 0, s.bufT 0, s.A)) = some (.tp4 false, [], []) := by decide
 
 end MythVerif.WsqTso
